@@ -1,4 +1,4 @@
 CONSTANTS MaxN = 40  KS <- MCKS
 SPECIFICATION Spec
-INVARIANTS ChebBudget ChebBounded ClosedForm
+INVARIANTS ChebBudget ChebBounded ClosedForm HalfGrid
 CHECK_DEADLOCK FALSE
